@@ -82,5 +82,549 @@ class C11(PropCheck):
                        nontrivial=nontrivial, key=key)
 
 
-REGISTRY = {"C11": C11}
+
+
+# ======================================================================================
+# evaluator properties: shared machinery
+# ======================================================================================
+def np_of_locstr(loc):
+    """Normalized Path (RFC 9535 2.7) of a location rendered as '$/n:97/i:0' -> code points str.
+    Only used when the spec's own R line does not contain the location (it normally does)."""
+    out = [36]
+    for st in loc.split("/")[1:]:
+        if st.startswith("i:"):
+            out += [91] + [ord(c) for c in st[2:]] + [93]
+        else:
+            out += [91, 39]
+            for c in [int(x) for x in st[2:].split(".") if x != ""]:
+                esc = {8: [92, 98], 12: [92, 102], 10: [92, 110], 13: [92, 114], 9: [92, 116], 39: [92, 39], 92: [92, 92]}
+                if c in esc:
+                    out += esc[c]
+                elif c < 32:
+                    out += [92, 117, 48, 48] + [ord(x) for x in "%02x" % c]
+                else:
+                    out.append(c)
+            out += [39, 93]
+    return ".".join(str(c) for c in out)
+
+
+class EvalProp(PropCheck):
+    """(query, document) pairs; the query reaches the crate either as a string through the public
+    API (E2E: parser included) or as a programmatically built AST (EVAL)."""
+    n_quick = 20000
+    n_thorough = 120000
+    e2e_share = 0.6
+    blank = 0.15
+
+    def profile(self):
+        return gen.Profile()
+
+    def make_case(self, cid, q, d, meta=None):
+        meta = dict(meta or {})
+        if gen.parser_shaped(q) and self.rng.random() < self.e2e_share:
+            ly = gen.Layout(self.rng, blank=self.blank if self.rng.random() < 0.5 else 0.0)
+            try:
+                text = gen.render(q, ly)
+            except Exception:
+                text = None
+            if text is not None:
+                meta["query"] = text
+                return Case(cid, "EVAL", [q, d], meta, impl=("E2E", [S(text), d]))
+        return Case(cid, "EVAL", [q, d], meta)
+
+    def pairs(self, g, n):
+        for i in range(n):
+            yield g.pair()
+
+    def extra_cases(self):
+        return []
+
+    def cases(self):
+        g = gen.Gen(self.rng, self.profile())
+        n = self.n_quick if self.tier == "quick" else self.n_thorough
+        out = []
+        for i, (q, d) in enumerate(self.pairs(g, n)):
+            out.append(self.make_case("r%d" % i, q, d))
+        for j, c in enumerate(self.extra_cases()):
+            c.id = "x%d" % j
+            out.append(c)
+        return out
+
+    # --- observables ---
+    def obs(self, items):
+        """which nodes are selected, with multiplicity (their order is C02's observable)"""
+        return sorted(locs(items))
+
+    def known_class(self, c, ans, I, M, R, S, K):
+        """the listed class that explains impl = model <> RFC on this case, or None"""
+        return None
+
+    def extra_checks(self, c, ans, I, M, R):
+        """property-specific checks on the implementation's own answer; return detail or None"""
+        return None
+
+    def nontrivial(self, c, I, R):
+        return isinstance(R, list) and len(R) > 0
+
+    def key(self, c):
+        return sx_key(c)
+
+    def judge(self, c, ans):
+        I, M, R, S_ = (parse_items(ans.get(t)) for t in ("I", "M", "R", "S"))
+        K = kflags(ans.get("K"))
+        nt = self.nontrivial(c, I, R)
+        key = self.key(c)
+        self.count("mode_" + ("e2e" if c.impl else "ast"))
+        if isinstance(R, str) or isinstance(M, str) and M != "ERR":
+            return Verdict("violation", detail="model/spec driver did not answer: M=%r R=%r" % (M, R), nontrivial=nt, key=key)
+        if not K.get("wf", True):
+            return Verdict("ok", detail="document outside the domain (duplicate member names)")
+        if isinstance(I, str):
+            # evaluation failed, panicked, aborted or the valid query string was rejected
+            return Verdict("violation", detail="implementation answered %s where RFC 9535 selects %r" % (I, locs(R)), nontrivial=nt, key=key)
+        if c.impl is not None:
+            extra = ans.get("I")[2:] if len(ans.get("I", [])) > 2 else []
+            for flag in extra:
+                if flag in ("entry=0", "parsed_once=0", "DOC_CHANGED"):
+                    return Verdict("violation", detail="public entry points disagree: %s" % flag, nontrivial=nt, key=key)
+        if any(l == "FOREIGN" for l in locs(I)):
+            return Verdict("violation", detail="a returned value is not a node of the caller's document", nontrivial=nt, key=key)
+        e = self.extra_checks(c, ans, I, M, R)
+        if e:
+            return Verdict("violation", detail=e, nontrivial=nt, key=key)
+        oI, oM, oR = self.obs(I), self.obs(M), self.obs(R)
+        if oI == oR:
+            if oM != oI:
+                return Verdict("stale", detail="model differs from impl = RFC", nontrivial=nt, key=key)
+            return Verdict("ok", nontrivial=nt, key=key)
+        if oI == oM:
+            cls = self.known_class(c, ans, I, M, R, S_, K)
+            if cls:
+                self.count("known_" + cls)
+                return Verdict("known", cls=cls, detail="impl=model=%r rfc=%r" % (oI, oR), nontrivial=nt, key=key)
+            return Verdict("violation", detail="implementation (and model) give %r, RFC 9535 gives %r; no listed known class applies" % (oI, oR), nontrivial=nt, key=key)
+        return Verdict("violation", detail="implementation gives %r, RFC 9535 gives %r, model gives %r" % (oI, oR, oM), nontrivial=nt, key=key)
+
+    def shrink_e2e(self, cur):
+        """shrink an E2E case through its AST, re-rendering compactly"""
+        from .core import shrink_tuple
+        cands = []
+        q, d = cur.fields
+        for q2 in shrink_tuple(q):
+            if gen.parser_shaped(q2) and gen.valid_ast(q2):
+                try:
+                    text = gen.render(q2, gen.Layout(self.rng, 0.0))
+                except Exception:
+                    continue
+                cands.append(Case("s%d" % len(cands), "EVAL", [q2, d], dict(cur.meta, query=text), impl=("E2E", [S(text), d])))
+        for d2 in shrink_tuple(d):
+            text = cur.meta.get("query")
+            cands.append(Case("s%d" % len(cands), "EVAL", [q, d2], cur.meta, impl=("E2E", [cur.impl[1][0], d2])))
+        return cands
+
+
+def sx_key(c):
+    from .sx import dump
+    return "|".join(f if isinstance(f, str) else dump(f) for f in c.fields)
+
+
+def d7_applies(K):
+    return not K.get("names_plain", True)
+
+
+class C01(EvalProp):
+    pid = "C01"
+    design_ref = "DESIGN.md section 3, C01"
+    technique = "Coq refinement proof (model = RFC semantics, mutual induction over the AST) + differential correspondence"
+    level_text = ("Unbounded Coq theorems relate the hand model of the evaluator to the RFC 9535 nodelist semantics for every "
+                  "query AST and document (Refine.v); C01 is stated on multisets of locations so that the known ordering "
+                  "deviation D1 does not weaken it. The model is tied to the crate on every run by evaluating generated "
+                  "(query, document) pairs through both, locations of the crate's results being recovered by address inside "
+                  "the caller's document (a copy or fabricated value shows up as FOREIGN).")
+    level_note = "hand model of src/query/*.rs; differential run is sampling; names with escapes are the listed known class D7"
+    rule = ("random (query, document) pairs, 60% as query strings through query_with_path/query/query_only_path (random RFC layout), "
+            "40% as programmatically built ASTs through js_path_process; observable = multiset of result locations found by "
+            "address; non-trivial = RFC nodelist non-empty; distinct = distinct (AST, document)")
+
+    def profile(self):
+        return gen.Profile(odd_names=True, hostile_names=self.rng.random() < 0.5, programmatic=True)
+
+    def cases(self):
+        # two generator profiles: plain names only / with hostile names
+        out = []
+        n = self.n_quick if self.tier == "quick" else self.n_thorough
+        for tag, prof in (("p", gen.Profile(odd_names=True, programmatic=True)),
+                          ("h", gen.Profile(odd_names=True, hostile_names=True, programmatic=True))):
+            g = gen.Gen(self.rng, prof)
+            for i in range(n // 2):
+                out.append(self.make_case("%s%d" % (tag, i), *g.pair()))
+        return out
+
+    def obs(self, items):
+        return sorted(locs(items))
+
+    def known_class(self, c, ans, I, M, R, S_, K):
+        if d7_applies(K):
+            return "D7-escaped-names"
+        return None
+
+
+class C02(EvalProp):
+    pid = "C02"
+    design_ref = "DESIGN.md section 3, C02"
+    technique = "Coq refinement proof + confinement of the selector-major deviation + differential correspondence"
+    level_text = ("Theorem A (Refine.v): the model's result sequence equals the RFC semantics with the one switch sel_major on, for "
+                  "every query and document; theorem B: with no multi-selector segment the two semantics coincide, so the order "
+                  "is the RFC's; the remaining class (a multi-selector segment over several input nodes) is the known finding D1, "
+                  "whose witness lemma is proved by vm_compute. Correspondence: sequences of result locations.")
+    level_note = "D1 (selector-major union order) is entrenched by the unit test query::tests::index_unit_keys_test; known finding"
+    rule = ("random pairs biased to fan-out before unions, negative slice steps and descendants; observable = sequence of result "
+            "locations; non-trivial = RFC nodelist has >= 2 nodes; a case is in class D1 iff the spec with sel_major differs from the RFC")
+
+    def profile(self):
+        return gen.Profile(odd_names=True, max_segments=4, max_width=4)
+
+    def nontrivial(self, c, I, R):
+        return isinstance(R, list) and len(R) >= 2
+
+    def obs(self, items):
+        return locs(items)
+
+    def known_class(self, c, ans, I, M, R, S_, K):
+        if isinstance(S_, list) and locs(S_) != locs(R) and locs(S_) == locs(I):
+            return "D1-selector-major-union"
+        if d7_applies(K):
+            return "D7-escaped-names"
+        return None
+
+    def extra_cases(self):
+        doc = ("a", ("a", ("i", 1), ("i", 2)), ("a", ("i", 3), ("i", 4)))
+        q = ("q", ("sel", "wild"), ("sels", ("idx", 0), ("idx", 1)))
+        return [Case("w", "EVAL", [q, doc], {"witness": "D1"}, impl=("E2E", [S("$[*][0,1]"), doc]))]
+
+
+class C03(EvalProp):
+    pid = "C03"
+    design_ref = "DESIGN.md section 3, C03"
+    technique = "Coq proof that model paths are Normalized Paths on plain names + differential correspondence with re-query"
+    level_text = ("Coq theorems: for documents whose member names need no escaping and queries without double-quoted or escaped names, "
+                  "every path the model reports is np(location) (RFC 9535 2.7), through every selector kind and the descendant segment; "
+                  "np is injective. Correspondence compares the crate's path strings with np of the address-derived location and feeds "
+                  "every reported path back as a query.")
+    level_note = "D6 (raw, unescaped result paths) is entrenched by unit tests single_quote, name_sel, tab_key; known finding"
+    rule = ("random pairs incl. hostile member names; observable = (location, path) per result, path compared with the Coq-computed "
+            "Normalized Path; phase 2 re-queries every plain reported path; non-trivial = RFC nodelist non-empty")
+
+    def cases(self):
+        out = []
+        n = self.n_quick if self.tier == "quick" else self.n_thorough
+        for tag, prof in (("p", gen.Profile(odd_names=True)), ("h", gen.Profile(odd_names=True, hostile_names=True))):
+            g = gen.Gen(self.rng, prof)
+            for i in range(n // 2):
+                out.append(self.make_case("%s%d" % (tag, i), *g.pair()))
+        return out
+
+    def obs(self, items):
+        return items          # (loc, path) pairs, in order? order is C02's business: compare as sorted
+    
+    def judge(self, c, ans):
+        if c.meta.get("requery"):
+            return self.judge_requery(c, ans)
+        I, M, R, S_ = (parse_items(ans.get(t)) for t in ("I", "M", "R", "S"))
+        K = kflags(ans.get("K"))
+        nt = self.nontrivial(c, I, R)
+        key = self.key(c)
+        if isinstance(I, str) or isinstance(R, str) or isinstance(M, str):
+            return Verdict("ok", detail="not a successful evaluation: other properties judge this")
+        if sorted(locs(I)) != sorted(locs(R)):
+            return Verdict("ok", detail="nodelist differs from the RFC's: C01 judges this")
+        npmap = dict(R)
+        mpath = {}
+        for l, p in M:
+            mpath.setdefault(l, set()).add(p)
+        bad = None
+        seen = {}
+        for l, p in I:
+            exp = npmap.get(l, np_of_locstr(l))
+            if p in seen and seen[p] != l:
+                bad = ("inj", l, p)
+            seen[p] = l
+            if p != exp:
+                bad = bad or ("np", l, p, exp)
+        if bad is None:
+            return Verdict("ok", nontrivial=nt, key=key)
+        l = bad[1]
+        if all(p in mpath.get(l2, ()) for l2, p in I):
+            if not (K.get("names_plain", True) and K.get("names_single", True) and K.get("doc_plain", True)):
+                self.count("known_D6")
+                return Verdict("known", cls="D6-raw-paths", detail=repr(bad), nontrivial=nt, key=key)
+            return Verdict("violation", detail="path is not the Normalized Path although all names are plain: %r" % (bad,), nontrivial=nt, key=key)
+        return Verdict("violation", detail="reported path differs from the Normalized Path and from the model: %r" % (bad,), nontrivial=nt, key=key)
+
+    def followups(self, c, ans):
+        if c.meta.get("requery") or self.rng.random() > 0.25:
+            return []
+        I, R = parse_items(ans.get("I")), parse_items(ans.get("R"))
+        if isinstance(I, str) or isinstance(R, str):
+            return []
+        npmap = dict(R)
+        out = []
+        d = c.fields[1]
+        for k, (l, p) in enumerate(I[:3]):
+            if l in npmap and npmap[l] == p:
+                text = "".join(chr(int(x)) for x in p.split("."))
+                out.append(Case("%sq%d" % (c.id, k), "EVAL", [("q",), d], {"requery": True, "loc": l, "path": p},
+                                impl=("E2E", [S(text), d])))
+        return out
+
+    def judge_requery(self, c, ans):
+        I = parse_items(ans.get("I"))
+        want = [(c.meta["loc"], c.meta["path"])]
+        if I == want:
+            return Verdict("ok", nontrivial=True, key="rq|" + c.meta["path"] + sx_key(c))
+        return Verdict("violation", detail="re-querying the reported path returns %r instead of exactly that node" % (I,), nontrivial=True)
+
+
+def f_(x):
+    return gen.flt(x)
+
+
+def o_(**kw):
+    ks = sorted(kw, key=lambda k: [ord(c) for c in k])
+    return ("o",) + tuple((S(k), kw[k]) for k in ks)
+
+
+V_SCALAR = ["null", ("b", 1), ("b", 0), ("i", 0), ("i", 1), ("i", -1), f_(1.0), f_(1.5), f_(0.1), f_(0.1 + 2**-56),
+            f_(1e-20), f_(2e-20), f_(0.0), ("i", MAXI), ("i", -MAXI), f_(float(MAXI)), ("i", 2), f_(2.0), f_(-1.0), f_(1e300),
+            S(""), S("a"), S("ab"), S("b"), S("A"), S("\u00e9"), S("\U0001F600"), S("\uffff"), S("1"), S("true"), S("null")]
+V_STRUCT = [("a",), ("a", ("i", 1)), ("a", f_(1.0)), ("a", ("i", 1), ("i", 2)), ("a", ("i", 2), ("i", 1)), ("a", ("a", ("i", 1))),
+            ("a", ("a", f_(1.0))), ("a", "null"), ("a", S("a")), ("o",), o_(k=("i", 1)), o_(k=f_(1.0)), o_(k=("i", 1), j=("i", 2)),
+            o_(j=("i", 2), k=f_(1.0)), o_(k=("a", ("i", 1))), o_(k=("a", f_(1.0))), o_(k="null"), o_(j=("i", 1)), o_(k=o_(k=("i", 0))),
+            o_(k=o_(k=f_(0.0)))]
+V_ALL = V_SCALAR + V_STRUCT
+OPS6 = ["eq", "ne", "lt", "le", "gt", "ge"]
+
+
+def lit_of(v):
+    if v == "null":
+        return "null"
+    if v[0] == "b":
+        return ("bool", v[1])
+    if v[0] == "i":
+        return ("int", v[1])
+    if v[0] == "f":
+        return ("flt", v[1], v[2])
+    if v[0] == "s":
+        return ("str", v)
+    return None
+
+
+def filt(atom):
+    return ("q", ("sel", ("filter", ("atom", atom))))
+
+
+class C04(EvalProp):
+    pid = "C04"
+    design_ref = "DESIGN.md section 3, C04"
+    technique = "Coq proof (induction on JSON values) of the comparison table + exhaustive operand-kind correspondence"
+    level_text = ("Coq theorems: for all JSON values on both sides (any nesting), all operand forms (literal, singular query that may "
+                  "select nothing, value-typed function result) and all six operators the model of comparison.rs computes the RFC 9535 "
+                  "2.3.5.2.2 comparison (C04_table); derived operators, trichotomy for numbers and strings, no ordering across types are "
+                  "corollaries. Correspondence: exhaustive table of 51 values x 51 values x 6 operators x operand forms through the crate.")
+    level_note = "numbers are compared as binary64 (integers above 2^53 are outside the property's I-JSON domain); string literals with escapes are the known class D7"
+    rule = ("exhaustive: all ordered pairs from a 51-value universe (every JSON kind, nested, int/float spellings of one number, "
+            "missing members) x 6 operators x forms {@.x op @.y, @.x op literal, literal op @.x, literal op literal, @ op $.k, "
+            "function results}; plus random comparisons; non-trivial = RFC selects at least one element; distinct = distinct (AST, document)")
+    n_quick = 4000
+
+    def profile(self):
+        return gen.Profile(selectors=["filter", "wild", "name"], functions=["length", "count", "value"], filter_depth=1, max_segments=2)
+
+    def extra_cases(self):
+        out = []
+        # one document holding every ordered pair, plus elements with x or y (or both) missing
+        elems = []
+        for a in V_ALL:
+            for b in V_ALL:
+                elems.append(o_(x=a, y=b))
+        for a in V_ALL:
+            elems.append(o_(x=a))
+            elems.append(o_(y=a))
+        elems.append(("o",))
+        pairs_doc = ("a",) + tuple(elems)
+        mk = lambda q, d, m: self.make_case("t", q, d, m)
+        x, y = ("sq", "cur", ("n", S("x"))), ("sq", "cur", ("n", S("y")))
+        for op in OPS6:
+            out.append(mk(filt(("cmp", op, x, y)), pairs_doc, {"table": "query-query", "op": op}))
+            out.append(mk(filt(("cmp", op, ("sq", "cur", ("n", S("'x'"))), ("sq", "cur", ("n", S('"y"'))))), pairs_doc, {"table": "query-query-quoted", "op": op}))
+        single = ("a",) + tuple(o_(x=a) for a in V_ALL) + (("o",),)
+        for op in OPS6:
+            for l in V_SCALAR:
+                out.append(mk(filt(("cmp", op, x, ("lit", lit_of(l)))), single, {"table": "query-literal", "op": op}))
+                out.append(mk(filt(("cmp", op, ("lit", lit_of(l)), x)), single, {"table": "literal-query", "op": op}))
+        small = [v for i, v in enumerate(V_SCALAR) if i % 2 == 0]
+        for op in OPS6:
+            for l in small:
+                for r in small:
+                    out.append(mk(filt(("cmp", op, ("lit", lit_of(l)), ("lit", lit_of(r)))), ("a", ("i", 0)), {"table": "literal-literal", "op": op}))
+        # current node against a member of the root; function results on either side
+        rootdoc = o_(k=("i", 1), vals=("a",) + tuple(V_ALL))
+        for op in OPS6:
+            q = ("q", ("sel", ("name", S("vals"))), ("sel", ("filter", ("atom", ("cmp", op, ("sq", "cur"), ("sq", "root", ("n", S("k"))))))))
+            out.append(mk(q, rootdoc, {"table": "current-root", "op": op}))
+            for fn in (("length", ("argt", ("rel", ("sel", ("name", S("x")))))), ("count", ("argt", ("rel", ("sel", ("name", S("x"))), ("sel", "wild")))),
+                       ("value", ("argt", ("rel", ("sel", ("name", S("x"))), ("sel", "wild"))))):
+                out.append(mk(filt(("cmp", op, ("fn", fn), y)), pairs_doc, {"table": "function-query", "op": op}))
+                out.append(mk(filt(("cmp", op, y, ("fn", fn))), pairs_doc, {"table": "query-function", "op": op}))
+        return out
+
+    def known_class(self, c, ans, I, M, R, S_, K):
+        if d7_applies(K):
+            return "D7-escaped-names"
+        return None
+
+
+class C05(EvalProp):
+    pid = "C05"
+    design_ref = "DESIGN.md section 3, C05"
+    technique = "Coq refinement proof of filter evaluation (mutual induction) + formula/valuation correspondence"
+    level_text = ("Coq theorems: the model of Filter::process/process_elem/filter_item, FilterAtom::process and Test::process computes the RFC "
+                  "9535 2.3.5 truth value of every logical expression (any nesting of !, &&, ||, parentheses, nested filters) on every current "
+                  "node, existence tests are nodelist non-emptiness, @ rebinds at each nesting level and $ is the root; the filter selector keeps "
+                  "exactly the children for which it holds, in order. Correspondence: formulas over existence/comparison atoms against documents "
+                  "realising the valuations, incl. members whose value is null/false/0/\"\"/[]/{} and filters nested in filter queries.")
+    level_note = "precedence of && over || is a parser fact checked through the E2E stream (strings) and, once the parser model lands, C06's round trip"
+    rule = ("random logical expressions (depth <= 3) over existence tests, negations, comparisons, $-rooted tests and nested filter queries; "
+            "documents rich in falsy member values; 60% through query strings; non-trivial = RFC keeps at least one child")
+
+    def profile(self):
+        return gen.Profile(selectors=["filter", "filter", "filter", "name", "wild", "idx"], functions=["count", "length"], filter_depth=3,
+                           max_segments=2, names=["a", "b", "c"], max_width=4)
+
+    def cases(self):
+        # documents biased to falsy values under the tested names
+        old = gen.INTS, gen.STRS
+        out = super().cases()
+        return out
+
+    def extra_cases(self):
+        falsy = ["null", ("b", 0), ("i", 0), S(""), ("a",), ("o",), f_(0.0)]
+        elems = [o_(a=v) for v in falsy] + [o_(b=("i", 1)), ("o",), ("a",), ("a", o_(a=("i", 1))), ("a", ("a", o_(a="null")))] + falsy
+        doc = ("a",) + tuple(elems)
+        A = ("atest", ("rel", ("sel", ("name", S("a")))), 0)
+        nA = ("atest", ("rel", ("sel", ("name", S("a")))), 1)
+        B = ("atest", ("rel", ("sel", ("name", S("b")))), 0)
+        cur = ("atest", ("rel",), 0)
+        nested = ("atest", ("rel", ("sel", ("filter", ("atom", A)))), 0)
+        nested2 = ("atest", ("rel", ("sel", ("filter", ("atom", ("atest", ("rel", ("sel", ("filter", ("atom", A)))), 0))))), 0)
+        rooted = ("atest", ("abs", ("sel", ("idx", 0)), ("sel", ("name", S("a")))), 0)
+        cnt = ("cmp", "eq", ("fn", ("count", ("argt", ("rel", ("sel", ("filter", ("atom", A))))))), ("lit", ("int", 1)))
+        forms = [("atom", A), ("atom", nA), ("atom", cur), ("atom", nested), ("atom", nested2), ("atom", rooted), ("atom", cnt),
+                 ("or", ("atom", A), ("atom", B)), ("and", ("atom", A), ("atom", B)),
+                 ("or", ("atom", A), ("and", ("atom", B), ("atom", nA))),
+                 ("atom", ("afilter", ("or", ("atom", A), ("atom", B)), 1)),
+                 ("and", ("atom", ("afilter", ("or", ("atom", A), ("atom", B)), 0)), ("atom", nA)),
+                 ("atom", ("afilter", ("atom", ("afilter", ("atom", A), 1)), 1))]
+        out = []
+        for f in forms:
+            out.append(self.make_case("t", ("q", ("sel", ("filter", f))), doc, {"table": "falsy"}))
+            out.append(self.make_case("t", ("q", ("desc", ("sel", ("filter", f)))), doc, {"table": "falsy-desc"}))
+        return out
+
+    def known_class(self, c, ans, I, M, R, S_, K):
+        if d7_applies(K):
+            return "D7-escaped-names"
+        return None
+
+
+class C14(EvalProp):
+    pid = "C14"
+    design_ref = "DESIGN.md section 3, C14"
+    technique = "Coq proof of the five extension functions against their set-theoretic specification + exhaustive small-array correspondence"
+    level_text = ("Coq theorems: the model of extension_custom and of the argument marshalling in test_function.rs::custom computes in/nin/"
+                  "any_of/none_of/subset_of exactly as existsb/forallb over the element equality, nin and none_of are the negations, the empty "
+                  "array is a subset of anything, and a missing or non-array argument makes the test false. Correspondence: all pairs of arrays "
+                  "of length <= 3 over a 6-value universe, non-arrays and missing members, through the crate.")
+    level_note = "element equality is serde_json's Value == (kind-sensitive numbers), as DESIGN.md C14 states; arguments are literals or singular queries"
+    rule = ("exhaustive: (x, L) and (A, B) over arrays of length <= 2 (plus sampled length 3) of a 6-value universe incl. nested and empty, "
+            "non-array and missing arguments, for the five functions and their negations; non-trivial = RFC keeps at least one element")
+    n_quick = 3000
+
+    def profile(self):
+        return gen.Profile(selectors=["filter", "name", "wild"], functions=["length"], custom=True, filter_depth=1, max_segments=2)
+
+    def extra_cases(self):
+        U = [("i", 1), ("i", 2), f_(1.0), S("a"), ("a", ("i", 1)), "null"]
+        arrays = [("a",)] + [("a", u) for u in U] + [("a", u, v) for u in U for v in U]
+        arrays += [("a",) + tuple(self.rng.choice(U) for _ in range(3)) for _ in range(20)]
+        nonarr = [("i", 1), S("a"), "null", o_(a=("i", 1))]
+        elems = []
+        for A in arrays[:20] + self.rng.sample(arrays, 15):
+            for B in arrays[:12] + self.rng.sample(arrays, 10):
+                elems.append(o_(x=A, y=B))
+        for u in U + nonarr:
+            for B in arrays[:12] + nonarr:
+                elems.append(o_(x=u, y=B))
+        for B in arrays[:8]:
+            elems.append(o_(y=B))
+            elems.append(o_(x=B))
+        doc = o_(list=("a", ("i", 1), S("a"), ("a", ("i", 1))), elems=("a",) + tuple(elems))
+        x = ("argt", ("rel", ("sel", ("name", S("x")))))
+        y = ("argt", ("rel", ("sel", ("name", S("y")))))
+        rl = ("argt", ("abs", ("sel", ("name", S("list")))))
+        out = []
+        for fn in ["in", "nin", "none_of", "any_of", "subset_of"]:
+            for neg in (0, 1):
+                for args in ((x, y), (x, rl), (y, x), (("argl", ("int", 1)), y), (x,), ()):
+                    q = ("q", ("sel", ("name", S("elems"))), ("sel", ("filter", ("atom", ("atest", ("tfn", ("custom", S(fn)) + args), neg)))))
+                    out.append(self.make_case("t", q, doc, {"fn": fn, "neg": neg, "arity": len(args)}))
+        return out
+
+    def known_class(self, c, ans, I, M, R, S_, K):
+        if d7_applies(K):
+            return "D7-escaped-names"
+        return None
+
+
+class C10(EvalProp):
+    pid = "C10"
+    design_ref = "DESIGN.md section 3, C10"
+    technique = "Coq proofs of length/count/value and of the regex matcher against a denotational I-Regexp semantics + correspondence"
+    level_text = ("Coq theorems: the model of length/count/value in test_function.rs computes RFC 9535 2.4.4-2.4.6 for every argument form a "
+                  "well-typed call can have (length of strings in scalar values, arrays, objects; count of a nodelist incl. 0; value of a "
+                  "singleton nodelist); results flow into comparisons as ordinary values. match/search: model of prepare_regex plus an "
+                  "executable matcher for the modelled dialect, proved against the denotational semantics. Correspondence through the crate.")
+    level_note = "the regex crate is external: modelled on a stated dialect and validated by correspondence; patterns with escapes are the known class D14"
+    rule = ("length/count/value over argument kinds x node counts 0/1/2+; match/search over enumerated patterns x subjects; "
+            "non-trivial = RFC keeps at least one element")
+    n_quick = 6000
+
+    def profile(self):
+        return gen.Profile(selectors=["filter", "name", "wild"], functions=["length", "count", "value"], filter_depth=2, max_segments=2)
+
+    def extra_cases(self):
+        vals = V_ALL
+        doc = ("a",) + tuple(o_(x=v) for v in vals) + (("o",), o_(x=S("\U0001F600\u00e9a")), o_(x=("a", ("i", 1), ("i", 2), ("i", 3))))
+        out = []
+        X = ("argt", ("rel", ("sel", ("name", S("x")))))
+        XS = ("argt", ("rel", ("sel", ("name", S("x"))), ("sel", "wild")))
+        XD = ("argt", ("rel", ("desc", ("sel", "wild"))))
+        for n in range(0, 5):
+            for op in OPS6:
+                out.append(self.make_case("t", filt(("cmp", op, ("fn", ("length", X)), ("lit", ("int", n)))), doc, {"fn": "length"}))
+                out.append(self.make_case("t", filt(("cmp", op, ("fn", ("count", XS)), ("lit", ("int", n)))), doc, {"fn": "count"}))
+                out.append(self.make_case("t", filt(("cmp", op, ("fn", ("count", XD)), ("lit", ("int", n)))), doc, {"fn": "count"}))
+                out.append(self.make_case("t", filt(("cmp", op, ("fn", ("value", XS)), ("lit", ("int", n)))), doc, {"fn": "value"}))
+                out.append(self.make_case("t", filt(("cmp", op, ("fn", ("length", ("argt", ("tfn", ("value", XS))))), ("lit", ("int", n)))), doc, {"fn": "length-value"}))
+        for l in V_SCALAR:
+            out.append(self.make_case("t", filt(("cmp", "eq", ("fn", ("length", ("argl", lit_of(l)))), ("lit", ("int", 1)))), ("a", ("i", 0)), {"fn": "length-lit"}))
+        return out
+
+    def known_class(self, c, ans, I, M, R, S_, K):
+        if d7_applies(K):
+            return "D7-escaped-names"
+        return None
+
+
+REGISTRY = {"C01": C01, "C02": C02, "C03": C03, "C04": C04, "C05": C05, "C10": C10, "C11": C11, "C14": C14}
 NOT_YET = {}
